@@ -351,3 +351,147 @@ pub fn nested_program(rng: &mut Rng, depth: usize) -> String {
     }
     s
 }
+
+/// Identifier universe aimed at the import/module ordering code: both cases, digits with leading
+/// zeros, underscores, raw identifiers, non-ASCII upper/lower case and non-ASCII digits.
+pub const IDENT_UNIVERSE: &[&str] = &[
+    "a", "b", "B", "Ab", "aB", "AB", "A_B", "a_b", "ZED", "zed", "Zed", "x86", "x86_64", "x64", "X86", "u8", "u16", "u128", "U8", "v1", "v01", "v001", "v10", "v9", "_a", "a1", "a01", "a10",
+    "ÀB", "àb", "Àb", "MAX_9", "MAX_٣", "MAX_10", "Ünï", "ünï", "ÜNÏ", "r#type", "r#Zed", "std", "core", "alloc", "foo", "Foo", "FOO", "bar", "w5s009t", "w005s09t",
+];
+
+fn use_tree(rng: &mut Rng, depth: usize) -> String {
+    let mut s = String::new();
+    let n = rng.range(1, 3);
+    for i in 0..n {
+        if i > 0 {
+            s.push_str("::");
+        }
+        s.push_str(*rng.pick(IDENT_UNIVERSE));
+    }
+    match rng.below(6) {
+        0 => s.push_str("::*"),
+        1 | 2 if depth < 3 => {
+            let k = rng.range(1, 5);
+            let mut items: Vec<String> = (0..k).map(|_| if rng.chance(1, 6) { "self".to_string() } else { use_tree_leaf(rng, depth + 1) }).collect();
+            if rng.chance(1, 5) {
+                items.push(use_tree(rng, depth + 1));
+            }
+            s.push_str(&format!("::{{{}}}", items.join(", ")));
+        }
+        3 => s.push_str(&format!(" as {}", rng.pick(&["x", "y", "_", "Z"]))),
+        _ => {}
+    }
+    s
+}
+
+fn use_tree_leaf(rng: &mut Rng, depth: usize) -> String {
+    if depth < 3 && rng.chance(1, 6) {
+        use_tree(rng, depth)
+    } else {
+        let mut s = rng.pick(IDENT_UNIVERSE).to_string();
+        if rng.chance(1, 8) {
+            s.push_str(&format!(" as {}", rng.pick(&["x", "y", "_"])));
+        }
+        s
+    }
+}
+
+/// A file of import / `mod` / `extern crate` groups over `IDENT_UNIVERSE`, separated by blank lines
+/// and other items, in random order.
+pub fn import_program(rng: &mut Rng) -> String {
+    let mut s = String::new();
+    for _ in 0..rng.range(1, 4) {
+        match rng.below(5) {
+            0 => {
+                for _ in 0..rng.range(1, 5) {
+                    let id = *rng.pick(IDENT_UNIVERSE);
+                    s.push_str(&format!("{}mod {};\n", if rng.chance(1, 5) { "pub " } else { "" }, id));
+                }
+            }
+            1 => {
+                for _ in 0..rng.range(1, 4) {
+                    let id = rng.pick(IDENT_UNIVERSE).trim_start_matches("r#").to_string();
+                    if rng.chance(1, 3) {
+                        s.push_str(&format!("extern crate {} as {};\n", id, rng.pick(&["x", "y", "zz"])));
+                    } else {
+                        s.push_str(&format!("extern crate {};\n", id));
+                    }
+                }
+            }
+            _ => {
+                for _ in 0..rng.range(1, 6) {
+                    let vis = *rng.pick(&["", "", "", "pub ", "pub(crate) "]);
+                    s.push_str(&format!("{}use {};\n", vis, use_tree(rng, 0)));
+                }
+            }
+        }
+        s.push_str(*rng.pick(&["\n", "\nfn f() {}\n\n", "\n// group\n", "\n"]));
+    }
+    s
+}
+
+const TEXT_PIECES: &[&str] = &[
+    ":", "::", ":x", "a::b", ":registry_index_crates_io_proc_macro_expansion_cache_entry_with_a_long_name", "http://example.com/a/very/long/url/that/cannot/be/broken/anywhere/at/all/index.html",
+    "word", "another", "a", "the_quick_brown_fox_jumps_over_the_lazy_dog_and_keeps_running_for_a_long_while", "`code`", "* item", "- item", "+ item", "> quote", "> >", "1. item", "10) item", "```", "```rust", "~~~",
+    "\u{3000}", "\u{3000}\u{3000}* foo", "é", "日本語のテキスト", "🦊", "\u{a0}", "\\", "'", "[link]: http://x.y", "[a][b]", "#", "# Heading", "|", "| a | b |", "---", "===", "TODO:", "FIXME(x):", "@generated", "{", "}", "(", ")", "/*", "*/", "//", "\t", "  ", ".", "!", "?", ",", ";",
+];
+
+fn text_line(rng: &mut Rng) -> String {
+    let mut s = String::new();
+    if rng.chance(1, 3) {
+        s.push_str(&" ".repeat(rng.below(6)));
+    }
+    for i in 0..rng.range(1, 7) {
+        if i > 0 && rng.chance(4, 5) {
+            s.push(' ');
+        }
+        s.push_str(*rng.pick(TEXT_PIECES));
+    }
+    s
+}
+
+/// A program whose comments (line, block, doc, inner doc) and string literals carry hostile text:
+/// leading punctuation, unbreakable runs, Markdown markers, wide and combining characters.
+pub fn text_program(rng: &mut Rng) -> String {
+    let mut s = String::new();
+    let sanitize = |l: String, block: bool| -> String { if block { l.replace("*/", "* /").replace("/*", "/ *") } else { l } };
+    for _ in 0..rng.range(1, 4) {
+        match rng.below(6) {
+            0 => { for _ in 0..rng.range(1, 4) { s.push_str(&format!("// {}\n", text_line(rng))); } }
+            1 => { for _ in 0..rng.range(1, 4) { s.push_str(&format!("/// {}\n", text_line(rng))); } }
+            2 => { s.push_str("/*\n"); for _ in 0..rng.range(1, 4) { s.push_str(&format!(" * {}\n", sanitize(text_line(rng), true))); } s.push_str(" */\n"); }
+            3 => { s.push_str("/**\n"); for _ in 0..rng.range(1, 3) { s.push_str(&format!(" * {}\n", sanitize(text_line(rng), true))); } s.push_str(" */\n"); }
+            4 => { s.push_str(&format!("//{}\n", text_line(rng))); }
+            _ => { s.push_str(&format!("/* {} */\n", sanitize(text_line(rng), true))); }
+        }
+        match rng.below(4) {
+            0 => {
+                let lit = text_line(rng).replace('\\', "\\\\").replace('"', "\\\"").replace('\t', " ");
+                s.push_str(&format!("fn f() {{\n    let s = \"{}\";\n    // {}\n    call(a, \"{}\", b);\n}}\n", lit, text_line(rng), text_line(rng).replace('\\', "/").replace('"', "'")));
+            }
+            1 => s.push_str(&format!("struct S {{\n    /// {}\n    a: u32, // {}\n}}\n", text_line(rng), text_line(rng))),
+            2 => s.push_str(&format!("mod m {{\n    //! {}\n    fn g() {{ /* {} */ }}\n}}\n", text_line(rng), sanitize(text_line(rng), true))),
+            _ => s.push_str("fn h() {}\n"),
+        }
+    }
+    s
+}
+
+const NUM_LITS: &[&str] = &[
+    "0", "1", "1.", "1.0", "1.0e5", "1e5", "1e+5", "1E-5", "0x1f", "0XFF", "0xdead_beef", "0b1f32", "0b101", "0o17", "1f32", "1_f32", "1.f32", "1._0", "0x1p3", "1e", "0x", "0b", "1_000_000", "0.0.0", "1..2", "1.e1", "0e0", "0E0f64", "0b1e3", "0x1e3", "0xe+1", "1u8", "1usize", "1i128", "0b1_u8", "1.0E+10_f64", "00012", "0_0", "1e1_0", "9999999999999999999999999999", "0xFFFF_FFFF_FFFF_FFFF_FFFF",
+];
+
+/// Statements full of numeric literals in every spelling (valid or not).
+pub fn literal_program(rng: &mut Rng) -> String {
+    let mut s = String::from("fn f() {\n");
+    for i in 0..rng.range(1, 8) {
+        match rng.below(4) {
+            0 => s.push_str(&format!("    let x{} = {};\n", i, rng.pick(NUM_LITS))),
+            1 => s.push_str(&format!("    g({}, {}, t.{});\n", rng.pick(NUM_LITS), rng.pick(NUM_LITS), rng.pick(&["0", "0.0", "1.2", "0.0.0"]))),
+            2 => s.push_str(&format!("    let a = [{}, {}, {}];\n", rng.pick(NUM_LITS), rng.pick(NUM_LITS), rng.pick(NUM_LITS))),
+            _ => s.push_str(&format!("    match x {{ {} => 1, {}..={} => 2, _ => 3 }}\n", rng.pick(NUM_LITS), rng.pick(NUM_LITS), rng.pick(NUM_LITS))),
+        }
+    }
+    s.push_str("}\n");
+    s
+}
